@@ -90,6 +90,19 @@ func init() {
 		for _, f := range vFilters {
 			for _, s := range vSorts {
 				qs = append(qs, f.text+s.text)
+				if len(s.fields) > 0 {
+					text := f.text + " sort by "
+					for i, sf := range s.fields {
+						if i > 0 {
+							text += ", "
+						}
+						text += sf.Field
+						if sf.Asc {
+							text += " desc"
+						}
+					}
+					qs = append(qs, text)
+				}
 			}
 		}
 		return qs
@@ -170,6 +183,31 @@ func verifC19(filters []vFilter, sorts []vSort) {
 		match[i] = f.match(o)
 	}
 	verifrt.CheckPage(objs, match, s.fields, p, ids, count, "C19 "+f.text+s.text)
+	// a second query on the SAME store object (whatever the first one left in
+	// it): the same filter with the sort directions reversed, whole result
+	if len(s.fields) > 0 {
+		var rev []verifrt.SortField
+		text := f.text + " sort by "
+		for i, sf := range s.fields {
+			rev = append(rev, verifrt.SortField{Field: sf.Field, Asc: !sf.Asc})
+			if i > 0 {
+				text += ", "
+			}
+			text += sf.Field
+			if sf.Asc {
+				text += " desc"
+			}
+		}
+		q2, err := ast.Parse(st, text)
+		verifrt.Assert(err == nil, "C19 reversed query parses: "+text)
+		got2, count2, err := st.QueryEntitiesC(q2)
+		verifrt.Assert(err == nil, "C19 reversed query runs")
+		ids2 := make([]string, len(got2))
+		for i, o := range got2 {
+			ids2[i] = o.Id
+		}
+		verifrt.CheckPage(objs, match, rev, verifrt.Paging{}, ids2, count2, "C19 second query on the same store, directions reversed: "+f.text+s.text)
+	}
 }
 
 func VerifC19_NullFilters() { verifC19(vFilters[2:], vSorts[:2]) }
